@@ -395,7 +395,7 @@ func sha(v []byte) string {
 var skipCallerSubstr = []string{
 	"/sdk/v2/physical", "/helper/verifkit", "/vault/barrier", "sdk/v2/logical.(*StorageView)",
 	"sdk/v2/logical.(*logicalStorage", "sdk/v2/logical.(*TransactionalStorageView", "sdk/v2/logical.(*transactionalStorageView",
-	"runtime.", "sdk/v2/logical.StorageEntryJSON",
+	"runtime.", "sdk/v2/logical.StorageEntryJSON", "sdk/v2/logical.(*storageView)", "sdk/v2/logical.(*transactionalStorageView)", "sdk/v2/logical.(*storageViewTransaction)",
 }
 
 func callerName() string {
